@@ -16,6 +16,17 @@ or a list indexed by ``sequence-index``); a closed gate must print the skip toke
 documented value.  Only the identity of the element (sequence-item / sequence-key) is printed on
 every element.  Tag spellings: the same records through ``<!--#in-->`` and ``%(in)[`` (class
 String), the else / end tag repeating the name of the in tag, ``name=``, entity reads.
+
+Attribute names: what an element exposes is visible in the body whatever it is called.  In the
+names family the elements carry attributes / keys with arbitrary names (dashes, the look of a
+sequence variable, digits, underscores, upper case, the look of a prefix alias, characters only an
+expression can spell), exposed through the instance dictionary, ``__getattr__``, the class, a
+property, a dict, a Mapping or a UserDict, on some elements only, with and without an outer value
+of the same name.  The body reads them as ``dtml-var``, ``dtml-if``, entity, ``_[name]``,
+``_.getitem``, ``_.has_key``, as a python name and as ``sequence-var-nnn`` / ``first-nnn`` /
+``last-nnn``; the model is the documented precedence: the (innermost) element that defines the
+name, else what was visible outside the tag; with ``no_push_item`` only the latter; after the end
+tag only the latter.
 """
 import itertools
 import zlib
@@ -38,10 +49,18 @@ RULE = ('exhaustive grid: every x-pattern of the stated alphabet for length 0..4
         '"expr" x else tag plain or repeating the name x end tag plain, named, <!--#endin--> x '
         'length 0..3 (thorough 0..4) x kind x unbatched / size / start+size; entity reads and an '
         'else body of several blocks by hash); seeded cases decorated with gates / y / reading '
-        'order / spelling. A case is non-trivial when the '
+        'order / spelling; a names family (every name of a pool of 57 element attribute names - '
+        'dashed, sequence-variable look-alikes, identifiers with digits / underscores / upper case, '
+        'the words sequence variables end in, prefix-alias look-alikes, names only an expression '
+        'can spell - x 10 ways an element exposes it (instance dict, __getattr__, class, property; '
+        'dict, Mapping, UserDict with mapping; (key, object) and (key, mapping) pairs) x '
+        'no_push_item x prefix x unbatched / size / start+size (thorough: x 12 reading forms); '
+        'companion names, presence per element, values with runs, outer values, sort / reverse, '
+        'container, tag spelling and an inner loop over the children of the element by hash); '
+        'seeded names cases with names drawn from a grammar of these classes. A case is non-trivial when the '
         'sequence is non-empty or an else block decides the empty case; distinct = distinct '
         '(family, kind, container, options, prefix, form, else, outer, x-pattern, values, window, '
-        'spelling, gates, y-pattern, reading order)')
+        'spelling, gates, y-pattern, reading order; names family: the whole case)')
 ASSUMPTIONS = [
     'sequence-key is read for 2-tuple elements only; sequence-var-x, first-x, last-x and the '
     'plain names x/id only where every element defines them (objects; mappings with `mapping`)',
@@ -61,6 +80,18 @@ ASSUMPTIONS = [
     'pattern does not admit it); entity reads are used for values html_quote leaves unchanged',
     'the gate expression reads sequence-index through the namespace variable _ '
     '(_[\'sequence-index\']); this is itself a read of a documented variable on every element',
+    'names family: values are str / int / float (no callables, no None); names never start with '
+    'an underscore and never equal a name the tag itself binds (sequence-item, p_item, first-x, '
+    'mapping, ...): there two sentences of the statement would claim the name',
+    'names family: a name that looks like a sequence variable (first word sequence / first / last '
+    '/ next / previous / a statistic, or the prefix followed by _) is read only where every '
+    'element defines it and the element is pushed: elsewhere its lookup is a sequence variable '
+    'computation whose outcome the documentation does not fix; _[name] / _.getitem / entity / '
+    'python-name reads only where the name resolves on every element (they raise otherwise); '
+    'sequence-var-nnn / first-nnn / last-nnn only for identifier names defined on every element '
+    '(the documentation spells nnn as a simple name), first/last unbatched only',
+    'names family: where the current element lacks a name, the value visible outside the tag (or '
+    'nothing) is expected - the tag binds nothing under that name',
 ]
 SHARD_TIMEOUT = {'quick': 600, 'thorough': 3000}
 NSHARDS = {'quick': 16, 'thorough': 48}
@@ -352,6 +383,180 @@ def rich_random_case(rng):
     return case
 
 
+# ---------------------------------------------------------------- element attribute names
+NAME_POOL = (
+    # names with a dash (ids of children, header-like names, upper-case look-alikes of the
+    # sequence variable words)
+    'given-name', 'zip-code', 'contact-form', 'a-b-c', 'e-mail2', 'Last-Modified', 'x-y_z',
+    'Sequence-item', 'First-x', 'q-', 'item-7', 'my-first', 'zip-length', 'a--b',
+    # names that look like sequence variables and are none
+    'sequence-foo', 'sequence-var-q7', 'first-q7', 'last-q7', 'next-q7', 'previous-q7',
+    'total-q7', 'count-q7', 'mean-q7', 'sequence-step-q7', 'batch-q7', 'sequence-index-q7',
+    # identifiers with digits / underscores / upper case, and the plain words the sequence
+    # variables end in
+    'X1', 'my_attr', 'Title', 'a1b2', 'UPPER', 'camelCase', 'x2', 'q_', 'sequence_item',
+    'number', 'item', 'length', 'key', 'index', 'start', 'even', 'value', 'first', 'data', 'items',
+    # names that look like an alias of the prefix (classified as such where the prefix is p)
+    'p_foo', 'p_q7', 'p_item2',
+    # names only an expression can spell
+    'caf\xe9', 'a.b', 'a b', 'x:y', '1st', '-lead', 'a+b', 'n/a',
+)
+NAME_CLASSES = ('dashed', 'seq-like', 'ident', 'sv-suffix', 'prefix-like', 'expr-only')
+NAME_KINDS = (('obj', 'dict'), ('obj', 'getattr'), ('obj', 'class'), ('obj', 'prop'),
+              ('map', 'dict'), ('map', 'cmap'), ('map', 'udict'),
+              ('tup_obj', 'dict'), ('tup_obj', 'getattr'), ('tup_map', 'dict'))
+NAME_BATCHES = (None, {'size': 2}, {'start': 2, 'size': 2})
+NAME_VALUE_ALPHABETS = (('a', 'b'), (0, 1), ('', 'z', 0), (1.5, 'A-b'), None)
+
+
+def name_values(k, ni, n):
+    """per element values of one name, with runs of equal neighbours (None: all distinct)"""
+    alpha = NAME_VALUE_ALPHABETS[h(k, 'alpha', ni) % len(NAME_VALUE_ALPHABETS)]
+    if alpha is None:
+        return ['v%d.%d' % (ni, j) for j in range(n)]
+    return run_values(h(k, 'vals', ni), n, alpha)
+
+
+def complete_names_case(case, k):
+    """presence per element, values, outer values from the hash k (the choices that matter were
+    made by the caller)"""
+    names, n = case['names'], len(case['xs'])
+    pfx = case['opts'].get('prefix')
+    has = [0] * n
+    for ni, nm in enumerate(names):
+        mode = h(k, 'has', ni) % 4          # 0,1: every element; 2: some; 3: alternating
+        for j in range(n):
+            if (U.name_seqlike(nm, pfx) or mode < 2 or (mode == 2 and (h(k, 'p', ni) >> j) & 1)
+                    or (mode == 3 and (j + ni) % 2 == 0)):
+                has[j] |= 1 << ni
+    case['has'] = has
+    case['vals'] = [name_values(k, ni, n) for ni in range(len(names))]
+    case['outer'] = bits(k, len(names), 'outer')
+    return case
+
+
+def names_cases(tier):
+    """every name of the pool as the focus x how the element exposes it x no_push_item x prefix x
+    unbatched / size / start+size; companions, presence, values, reading forms, spelling, sort,
+    container and an inner loop over the element's children by hash (thorough: every reading
+    form of the focus name)"""
+    forms = U.NAME_FORMS
+    for fi, focus in enumerate(NAME_POOL):
+        for kind, src in NAME_KINDS:
+            for npi in (False, True):
+                for prefix in (None, 'p'):
+                    for bi, batch in enumerate(NAME_BATCHES):
+                        for form in (forms if tier != 'quick' else (None,)):
+                            k = h('names', focus, kind, src, npi, prefix, bi, form)
+                            if form is None:
+                                form = forms[(fi + k) % len(forms)]
+                            n = 1 + (k >> 3) % (4 if tier == 'quick' else 6)
+                            if batch and n < 2:
+                                n = 2
+                            others = [nm for nm in NAME_POOL if nm != focus]
+                            names = [focus, others[(k >> 5) % len(others)],
+                                     others[(k >> 11) % len(others)]]
+                            if names[1] == names[2]:
+                                names.pop()
+                            base = {'mapping': U.PART[kind] == 'map', 'no_push_item': npi,
+                                    'prefix': prefix}
+                            modes = U.sort_modes(kind, base)
+                            opts = dict(base, sort=modes[(k >> 17) % len(modes)],
+                                        reverse=bool((k >> 19) & 1))
+                            conts = containers_for(kind)
+                            reads = [[0, form], [1, forms[(k >> 21) % 7]],
+                                     [0, forms[(k >> 24) % 7]]]
+                            if len(names) > 2:
+                                reads.append([2, forms[(k >> 27) % len(forms)]])
+                            case = {'family': 'names', 'kind': kind, 'src': src,
+                                    'container': conts[(k >> 7) % len(conts)], 'opts': opts,
+                                    'form': FORMS[(k >> 9) % 3], 'xs': run_values(k, n),
+                                    'names': names, 'reads': reads,
+                                    'style': U.Syn.STYLES[(k >> 13) % 3]}
+                            if batch:
+                                case['batch'] = batch
+                            elif not npi and (k >> 15) % 3 == 0:
+                                kk = h(k, 'kids')
+                                case['kids'] = [[(h(kk, j, b) % (1 << len(names)))
+                                                 for b in range((kk >> (2 * j)) % 3)] for j in range(n)]
+                                case['iopts'] = {'prefix': (None, 'i')[(kk >> 20) & 1],
+                                                 'no_push_item': (kk >> 21) % 4 == 0}
+                            yield complete_names_case(case, k)
+
+
+LETTERS = 'abcdefghijklmnopqrstuvwxyzABCDEFGHIJKLMNOPQRSTUVWXYZ'
+ODD_CHARS = '.: +/!\xe9Ж,;@#'
+
+
+def random_name(rng, prefix):
+    def seg(lo=1):
+        return rng.choice(LETTERS) + ''.join(rng.choice(LETTERS + '0123456789_')
+                                             for _ in range(rng.randint(lo, 5)))
+    for _ in range(50):
+        cls = rng.choice(('dashed', 'dashed', 'dashed', 'seq', 'ident', 'ident', 'suffix',
+                          'alias', 'odd'))
+        if cls == 'dashed':
+            nm = '-'.join(seg() for _ in range(rng.randint(2, 3)))
+            if rng.random() < 0.2:
+                nm = nm.replace('-', '--', 1) if rng.random() < 0.5 else nm + '-'
+            if rng.random() < 0.3:          # ends in the word a sequence variable ends in
+                nm = seg() + '-' + rng.choice(U.SV_SUFFIXES)
+        elif cls == 'seq':
+            nm = rng.choice(('sequence-', 'sequence-var-', 'first-', 'last-', 'next-', 'previous-',
+                             'total-', 'count-', 'min-', 'max-', 'mean-', 'median-', 'variance-',
+                             'standard-deviation-', 'sequence-step-', 'sequence-index-',
+                             'batch-')) + seg() + str(rng.randint(0, 9))
+        elif cls == 'ident':
+            nm = seg()
+        elif cls == 'suffix':
+            nm = rng.choice(U.SV_SUFFIXES)
+        elif cls == 'alias':
+            nm = (prefix or 'p') + '_' + seg() + str(rng.randint(0, 9))
+        else:
+            nm = seg(0)
+            at = rng.randint(0, len(nm))
+            nm = nm[:at] + rng.choice(ODD_CHARS) + nm[at:]
+            if rng.random() < 0.3:
+                nm = rng.choice('0123456789-') + nm
+            nm = nm.strip()
+        if len(nm) > 1 and not U.name_conflicts(nm, prefix):
+            return nm
+    return 'fall-back'
+
+
+def random_names_case(rng):
+    kind, src = rng.choice(NAME_KINDS)
+    n = rng.choice((1, 2, 2, 3, 3, 4, 5, 7))
+    base = {'mapping': U.PART[kind] == 'map', 'no_push_item': rng.random() < 0.25,
+            'prefix': rng.choice(SEED_PREFIXES)}
+    opts = dict(base, sort=rng.choice(U.sort_modes(kind, base)), reverse=rng.random() < 0.4)
+    names = []
+    while len(names) < rng.randint(1, 5):
+        nm = random_name(rng, base['prefix']) if rng.random() < 0.8 else rng.choice(NAME_POOL)
+        if nm not in names and not U.name_conflicts(nm, base['prefix']):
+            names.append(nm)
+    reads = [[rng.randrange(len(names)), rng.choice(U.NAME_FORMS)]
+             for _ in range(rng.randint(len(names), 2 * len(names) + 1))]
+    xs = []
+    while len(xs) < n:
+        xs += [rng.choice((0, 1, 2))] * rng.choice((1, 1, 2, 3))
+    case = {'family': 'names', 'kind': kind, 'src': src,
+            'container': rng.choice(containers_for(kind)), 'opts': opts, 'form': rng.choice(FORMS),
+            'xs': xs[:n], 'names': names, 'reads': reads, 'style': rng.choice(U.Syn.STYLES)}
+    r = rng.random()
+    if r < 0.3:
+        s = rng.randint(1, n)
+        case['batch'] = rng.choice(({'size': rng.randint(1, n + 1)},
+                                    {'start': s, 'size': rng.randint(1, n - s + 2)},
+                                    {'start': s, 'end': rng.randint(s, n)}))
+    elif r < 0.55 and not base['no_push_item']:
+        case['kids'] = [[rng.randrange(1 << len(names)) for _ in range(rng.randint(0, 3))]
+                        for _ in range(n)]
+        case['iopts'] = {'prefix': rng.choice((None, 'i', base['prefix'])),
+                         'no_push_item': rng.random() < 0.25}
+    return complete_names_case(case, rng.randrange(1 << 30))
+
+
 # ---------------------------------------------------------------- known-finding classifier
 def classify(case, problems):
     """mechanism key of a known finding, or None (no genuine C10 defect is known so far)"""
@@ -401,7 +606,7 @@ def run(ctx, spec):
     T = hz.tally
     sampled = 0
     for fam, gen in (('grid', grid_cases), ('batch', batch_cases), ('nested', nested_cases),
-                     ('gated', gated_cases), ('syntax', syntax_cases)):
+                     ('gated', gated_cases), ('syntax', syntax_cases), ('names', names_cases)):
         for i, case in enumerate(gen(ctx.tier)):
             if i % ctx.nshards != ctx.shard:
                 continue
@@ -414,7 +619,10 @@ def run(ctx, spec):
     for _ in range((2000 if ctx.tier == 'quick' else 30000) // ctx.nshards):
         T.c('cases:seeded rich')
         hz.evaluate(rich_random_case(ctx.rng), classify)
-    if ctx.shard < 5:
+    for _ in range((2400 if ctx.tier == 'quick' else 36000) // ctx.nshards):
+        T.c('cases:seeded names')
+        hz.evaluate(random_names_case(ctx.rng), classify)
+    if ctx.shard < 6:
         for case in ({'family': 'flat', 'kind': 'tup_obj', 'container': 'gen', 'form': 'name',
                       'opts': {'mapping': False, 'no_push_item': False, 'prefix': 'p', 'sort': 'x',
                                'reverse': True}, 'xs': [1, 0, 1], 'vals': None, 'outer': False,
@@ -437,6 +645,7 @@ def run(ctx, spec):
                       'outer': False, 'else': True,
                       'syntax': {'style': 'epfs', 'else': 'named', 'end': 'named',
                                  'entity': False, 'rich_else': True}},
+                     next(names_cases('quick')),
                      )[ctx.shard:ctx.shard + 1]:
             ctx.sample(sample_of(hz, case))
             sampled += 1
@@ -452,6 +661,13 @@ def sample_of(hz, case):
         out = hz.template(src)(outer=U.make_container(case['container'], outer), gk=glob)
         return {'case': case, 'source': U.show(src, 900),
                 'sequence': repr([(o, o.kids) for o in outer])[:300], 'output': U.show(out, 1200)}
+    if case['family'] == 'names':
+        src, _ = U.names_source(case)
+        elements, _ = U.names_elements(case)
+        out = hz.template(src, case.get('style', 'dtml'))(
+            None, U.names_outer(case), seq=U.make_container(case['container'], elements))
+        return {'case': case, 'source': U.show(src, 900), 'sequence': repr(elements)[:300],
+                'outer namespace': U.names_outer(case), 'output': U.show(out, 1200)}
     src, fields = U.flat_source(case)
     extras, kwargs = U.case_extras(case, [lab for lab, _ in fields])
     elements, _ = U.build_elements(case['kind'], case['xs'], case.get('vals'), extras)
@@ -505,6 +721,48 @@ def finish(agg):
                 key = '%s/else %s/%s' % (style, els, b)
                 if not t.get('else decided on an empty sequence', {}).get(key):
                     inc.append('else body never decided on an empty sequence: ' + key)
+    # element attribute names: every class of name seen on the element through every way an
+    # element can expose it, every reading form, every branch of the precedence
+    for k in ('cases:names', 'cases:seeded names', 'name records compared', 'name reads compared',
+              'name after-end probes compared'):
+        if not c.get(k):
+            inc.append('monitor never evaluated: ' + k)
+    seen_on = t.get('name classes seen on the element', {})
+    through = t.get('name classes seen through', {})
+    for cls in NAME_CLASSES:
+        for shape in ('object', 'mapping', 'pair'):
+            if not seen_on.get('%s/%s' % (cls, shape)):
+                inc.append('element attribute names never read on a pushed element: %s/%s' % (cls, shape))
+        for part, srcs in sorted(U.NAME_SOURCES.items()):
+            for src in srcs:
+                if not through.get('%s/%s:%s' % (cls, part, src)):
+                    inc.append('element attribute names never read: %s through %s:%s' % (cls, part, src))
+    for form in U.NAME_FORMS:
+        if not t.get('name reads by form', {}).get(form):
+            inc.append('element attribute never read in the form: ' + form)
+    for where in ('element value', 'element value (shadows an outer value)',
+                  'outer value (element lacks it)', 'nothing (element lacks it)',
+                  'outer value (no_push_item)', 'nothing (no_push_item)', 'inner element value',
+                  'inner element value (shadows the outer element)',
+                  'outer element value in the inner body',
+                  'outer element value in the inner body (inner no_push_item)'):
+        if not t.get('name visibility', {}).get(where):
+            inc.append('precedence branch never compared: ' + where)
+    ncodes = list(t.get('name cases: options', {}))
+    for what, test in (('batched', lambda cd: '/batch' in cd), ('nested', lambda cd: '/nested' in cd),
+                       ('no_push_item', lambda cd: cd[1] == 'N'), ('prefix', lambda cd: cd[2] == 'P'),
+                       ('mapping', lambda cd: cd[0] == 'M'), ('sort', lambda cd: cd[3] != '-'),
+                       ('no_push_item batched', lambda cd: cd[1] == 'N' and '/batch' in cd)):
+        if not any(test(cd) for cd in ncodes):
+            inc.append('names family never rendered: ' + what)
+    for style in U.Syn.STYLES:
+        if not t.get('name cases: style', {}).get(style):
+            inc.append('names family never rendered in the spelling: ' + style)
+    for var_ in ('sequence-var', 'first', 'last'):
+        for cls in ('ident', 'sv-suffix'):
+            if not any(k.startswith('%s/%s/' % (var_, cls))
+                       for k in t.get('named attribute variables', {})):
+                inc.append('%s-nnn never compared for a name of class %s' % (var_, cls))
     # what the engine anchors used to vouch for, demanded at the output level instead
     codes = list(t.get('option subsets', {}))
     for pos, letters, what in ((0, 'M', 'mapping'), (1, 'N', 'no_push_item'), (2, 'P', 'prefix'),
@@ -531,6 +789,10 @@ def finish(agg):
                                   'x alphabet': '{0,1}' if tier == 'quick' else '{0,1,2} (length 6: {0,1})',
                                   'x patterns': sum(1 for _ in patterns(tier)),
                                   'option subsets': len(t.get('option subsets', {}))},
+                         'names family': {'name pool': len(NAME_POOL), 'ways to expose a name': len(NAME_KINDS),
+                                          'reading forms': len(U.NAME_FORMS),
+                                          'classes x shapes seen on a pushed element':
+                                              len(t.get('name classes seen on the element', {}))},
                          'explanation': 'exhaustive over the stated grid (kinds x containers x '
                                         'option subsets x x-patterns); batch, nested and seeded '
                                         'families are extra'}}
